@@ -9,6 +9,7 @@ package c12
 import (
 	"context"
 	"fmt"
+	"math"
 	"os"
 	"runtime"
 	"sort"
@@ -43,6 +44,11 @@ type CRound struct {
 	Perturb []int  `json:"perturb"`
 	Extra   []int  `json:"extra"`
 	Collect []bool `json:"collect"`
+	// NF[g] / PreNF[p]: the FIRST measurement of racer g's / of the p-th
+	// prefilled set is non-finite on the float64 instruments: 0 finite,
+	// 1 +Inf, 2 NaN, 3 -Inf (+Inf where negative values are not allowed).
+	NF    []int `json:"nf,omitempty"`
+	PreNF []int `json:"pre_nf,omitempty"`
 }
 
 // ConcCase is one generated concurrent program.
@@ -121,6 +127,26 @@ func normalizeConc(c ConcCase) ConcCase {
 			}
 			n.Extra = append(n.Extra, e)
 		}
+		anyNF := false
+		for _, x := range append(append([]int{}, r.NF...), r.PreNF...) {
+			anyNF = anyNF || x%4 != 0
+		}
+		if anyNF {
+			for g := range n.Perturb {
+				x := 0
+				if g < len(r.NF) {
+					x = ((r.NF[g] % 4) + 4) % 4
+				}
+				n.NF = append(n.NF, x)
+			}
+			for p := 0; p < n.Prefill; p++ {
+				x := 0
+				if p < len(r.PreNF) {
+					x = ((r.PreNF[p] % 4) + 4) % 4
+				}
+				n.PreNF = append(n.PreNF, x)
+			}
+		}
 		if n.Perturb == nil {
 			n.Perturb, n.Extra = []int{}, []int{}
 		}
@@ -161,6 +187,7 @@ func genConc(t *rapid.T) ConcCase {
 	}
 	// occupancy of a table that is never reset / reset whenever reader 0 collects
 	occCum, occDelta := 0, 0
+	nonFinite := rapid.IntRange(0, 2).Draw(t, "use_nonfinite") == 0
 	nr := rapid.IntRange(2, 5).Draw(t, "rounds")
 	for r := 0; r < nr; r++ {
 		free := rapid.SampledFrom([]int{0, 1, 1, 1, 2, 2, 3}).Draw(t, "free_slots")
@@ -177,6 +204,15 @@ func genConc(t *rapid.T) ConcCase {
 		for i := 0; i < g; i++ {
 			rd.Perturb = append(rd.Perturb, rapid.SampledFrom([]int{0, 0, 0, 0, 1, 1, 1, 2}).Draw(t, "perturb"))
 			rd.Extra = append(rd.Extra, rapid.SampledFrom([]int{0, 0, 1, 2}).Draw(t, "extra"))
+		}
+		if nonFinite {
+			nfGen := rapid.SampledFrom([]int{0, 0, 0, 0, 0, 1, 2, 3})
+			for i := 0; i < g; i++ {
+				rd.NF = append(rd.NF, nfGen.Draw(t, "nf"))
+			}
+			for i := 0; i < pre; i++ {
+				rd.PreNF = append(rd.PreNF, nfGen.Draw(t, "pre_nf"))
+			}
 		}
 		for range c.Readers {
 			rd.Collect = append(rd.Collect, r == nr-1 || rapid.IntRange(0, 3).Draw(t, "collect") != 0)
@@ -219,6 +255,25 @@ func concValue(in CInst, setID, j int) float64 {
 		return float64(k) / 4
 	}
 	return float64(k)
+}
+
+// concValueNF is concValue, except that the first measurement of a set may
+// be non-finite on float64 instruments.
+func concValueNF(in CInst, setID, j int, nfs []int, idx int) float64 {
+	if j == 0 && in.Float && idx < len(nfs) {
+		switch nfs[idx] {
+		case 1:
+			return math.Inf(1)
+		case 2:
+			return math.NaN()
+		case 3:
+			if in.Kind == kCounter || in.Kind == kHist {
+				return math.Inf(1)
+			}
+			return math.Inf(-1)
+		}
+	}
+	return concValue(in, setID, j)
 }
 
 func resHookSelector(kind int) sdkmetric.ExemplarReservoirProviderSelector {
@@ -331,6 +386,17 @@ func concOnce(c ConcCase, run int, info *vk.Info, bad func(kind, format string, 
 	note := func(id int, key string, ph int, i int, v float64) {
 		for r := range streams {
 			st := streams[r][i]
+			if nonFiniteValue(v) {
+				if st.agg.kind == aExpo {
+					// pinned: ignored by the exponential aggregation (no point, no slot, no count)
+					info.Class("non_finite_ignored_by_exponential_histogram(pinned)")
+					continue
+				}
+				info.Class("non_finite_measurement/" + aggNames[st.agg.kind])
+				if st.life[id] == nil {
+					info.Class("set_whose_first_measurement_is_non_finite")
+				}
+			}
 			s := st.life[id]
 			if s == nil {
 				s = &cset{id: id, key: key, phase: ph}
@@ -345,7 +411,7 @@ func concOnce(c ConcCase, run int, info *vk.Info, bad func(kind, format string, 
 			id, set, key := newSet()
 			phase++
 			for i, in := range c.Insts {
-				v := concValue(in, id, 0)
+				v := concValueNF(in, id, 0, rd.PreNF, p)
 				rec[i](v, metric.WithAttributeSet(set))
 				note(id, key, phase, i, v)
 			}
@@ -378,14 +444,14 @@ func concOnce(c ConcCase, run int, info *vk.Info, bad func(kind, format string, 
 				o := metric.WithAttributeSet(sets[gi])
 				for j := 0; j <= rd.Extra[gi]; j++ {
 					for i, in := range c.Insts {
-						rec[i](concValue(in, ids[gi], j), o)
+						rec[i](concValueNF(in, ids[gi], j, rd.NF, gi), o)
 					}
 				}
 			})
 			for gi := range ids {
 				for j := 0; j <= rd.Extra[gi]; j++ {
 					for i, in := range c.Insts {
-						note(ids[gi], keys[gi], phase, i, concValue(in, ids[gi], j))
+						note(ids[gi], keys[gi], phase, i, concValueNF(in, ids[gi], j, rd.NF, gi))
 					}
 				}
 			}
@@ -478,11 +544,11 @@ func concCompare(where string, st *cstream, in CInst, gs []gotMetric, limit int,
 		// clause 3: an identified point carries exactly the measurements of its set
 		switch st.agg.kind {
 		case aSum:
-			if p.val != s.sum {
+			if !feq(p.val, s.sum) {
 				bad("point_value", "%s: set %s reports %v, its measurements add up to %v", where, p.key, p.val, s.sum)
 			}
 		case aLast:
-			if p.val != s.last {
+			if !feq(p.val, s.last) {
 				bad("point_value", "%s: set %s reports %v, its last measurement is %v", where, p.key, p.val, s.last)
 			}
 		default:
@@ -504,11 +570,11 @@ func concCompare(where string, st *cstream, in CInst, gs []gotMetric, limit int,
 	}
 	switch st.agg.kind {
 	case aSum:
-		if totVal != allSum {
+		if !feq(totVal, allSum) {
 			bad("conservation", "%s: reported points add up to %v, the measurements in scope to %v", where, totVal, allSum)
 		}
 	case aHist, aExpo:
-		if totCount != allCount || (!noSum && totSum != allSum) {
+		if totCount != allCount || (!noSum && !feq(totSum, allSum)) {
 			bad("conservation", "%s: reported count %d sum %v, measured count %d sum %v", where, totCount, totSum, allCount, allSum)
 		}
 	}
@@ -544,7 +610,7 @@ func concCompare(where string, st *cstream, in CInst, gs []gotMetric, limit int,
 	if (ovf != nil) != (len(ident) < n) {
 		bad("overflow_point", "%s: overflow point present=%v although %d of %d measured sets are reported with their identity", where, ovf != nil, len(ident), n)
 	}
-	if ovf != nil && st.agg.kind == aLast && ovfFold.vals[ovf.val] == 0 {
+	if ovf != nil && st.agg.kind == aLast && ovfFold.vals[ovf.val] == 0 && !(math.IsNaN(ovf.val) && ovfFold.nan > 0) {
 		bad("overflow_point", "%s: overflow point holds %v, which no overflowing measurement recorded", where, ovf.val)
 	}
 	if ovf != nil && ovfFold.count > 0 {
@@ -552,7 +618,7 @@ func concCompare(where string, st *cstream, in CInst, gs []gotMetric, limit int,
 		// are not reported with their identity
 		switch st.agg.kind {
 		case aSum:
-			if ovf.val != ovfFold.sum {
+			if !feq(ovf.val, ovfFold.sum) {
 				bad("overflow_point", "%s: overflow point reports %v, the measurements of the folded sets add up to %v", where, ovf.val, ovfFold.sum)
 			}
 		case aHist, aExpo:
